@@ -394,7 +394,9 @@ def binary_tree(rng, pools, n, moves, p_unary, root_unary):
                     p_root_unary=0.3 if root_unary else 0)
     gen.spice(rng, spec, ['cat-apostrophe', 'pos-apostrophe', 'cat-keyword',
                           'cat-punct-char', 'pos-punct-char', 'word-unispace',
-                          'word-unicode', 'word-keyword', 'word-percent'])
+                          'word-unicode', 'word-keyword', 'word-percent',
+                          'cat-decorated', 'cat-digit-last', 'pos-keyword',
+                          'word-equals-tag', 'word-python-literal'])
     if rng.random() < 0.3:
         # nodes as tree binarization leaves them: they are part of the input
         # tree and have to be rebuilt like any other node
